@@ -1,4 +1,6 @@
 import LunarVerif.Proofs.C20
+import LunarVerif.Proofs.C20Wiring
+import LunarVerif.Generated.Constants
 /-!
 # C20 — Diagnosis fail-safe reacts only to stable health changes and never flaps
 
@@ -102,5 +104,354 @@ example :
     (run ⟨2, 10, 5, 7⟩ (W.init 100) [⟨false, 0⟩, ⟨false, 0⟩, ⟨false, 0⟩, ⟨true, 0⟩]).map (·.t)
       = [100, 105, 110, 122] := by
   decide
+
+/-! ## Level 2 — what `diagnosis_failsafe.go` wires around the watcher
+
+Model `Model/C20Wiring.lean`, specification `Spec/C20Wiring.lean`.  (a) the health predicate, (b) the
+configuration read from the environment, (c) the two reactions on the policies accessor. -/
+
+/-! ### (a) the health predicate `areSPOEConnectionsHealthy` -/
+
+/-- The predicate answers exactly `expectedHealthy`, and fetches the stats iff both thresholds are
+    readable integers. -/
+theorem predicate_spec (thr : Thr) (h : Http) :
+    predicate thr h = (expectedHealthy thr h, (thrParsed thr).isSome) :=
+  Prod.ext (predicate_eq_expected thr h) (predicate_fetched thr h)
+
+/-- `unhealthy` is answered exactly when both thresholds parse, the fetch is a 200 with a parsable table
+    whose FIRST `lunar,BACKEND` row has both fields, and that row fails
+    `rate = healthyRate ∧ lastsess·1s > healthyMax·1s` (both products in wrapping `int64` ns). -/
+theorem predicate_unhealthy_iff (thr : Thr) (h : Http) :
+    (predicate thr h).1 = false ↔
+      ∃ rt mx rate last, thrParsed thr = some (rt, mx) ∧ classify h = .values rate last ∧
+        ¬ (rate = rt ∧ secToNs mx < secToNs last) := by
+  rw [predicate_eq_expected]
+  unfold expectedHealthy
+  cases hp : thrParsed thr with
+  | none => simp
+  | some p =>
+    obtain ⟨rt, mx⟩ := p
+    cases hc : classify h with
+    | values rate last =>
+      simp only [classVerdict, Bool.and_eq_false_iff, beq_eq_false_iff_ne, ne_eq, decide_eq_false_iff_not,
+        Option.some.injEq, Prod.mk.injEq, FetchClass.values.injEq]
+      constructor
+      · intro hx
+        refine ⟨rt, mx, rate, last, ⟨rfl, rfl⟩, ⟨rfl, rfl⟩, ?_⟩
+        intro ⟨h1, h2⟩
+        rcases hx with hx | hx
+        · exact hx h1
+        · exact hx h2
+      · rintro ⟨rt', mx', rate', last', ⟨rfl, rfl⟩, ⟨rfl, rfl⟩, hn⟩
+        by_cases h1 : rate = rt
+        · right; intro h2; exact hn ⟨h1, h2⟩
+        · left; exact h1
+    | _ => simp [classVerdict]
+
+/-- In the range where seconds → nanoseconds does not overflow the comparison is the plain one. -/
+theorem last_session_comparison (mx last : Int)
+    (h1 : -9223372036 ≤ mx) (h2 : mx ≤ 9223372036) (h3 : -9223372036 ≤ last) (h4 : last ≤ 9223372036) :
+    secToNs mx < secToNs last ↔ mx < last := by
+  rw [secToNs_of_small mx h1 h2, secToNs_of_small last h3 h4]; omega
+
+/-- Every error path answers `healthy`: transport error, unreadable body, status ≠ 200, unparsable
+    table, no SPOE backend row, row without the two fields - and unreadable thresholds. -/
+theorem error_paths_healthy (thr : Thr) (h : Http) (he : (classify h).isError = true) :
+    (predicate thr h).1 = true := by
+  rw [predicate_eq_expected]; exact expectedHealthy_of_error thr h he
+
+theorem unreadable_threshold_healthy (thr : Thr) (h : Http) (he : thrParsed thr = none) :
+    predicate thr h = (true, false) := by
+  rw [predicate_spec, he]; simp [expectedHealthy, he]
+
+/-- Level 1 consequence: a watcher that is only ever told `healthy` never reacts. -/
+theorem healthy_answers_silent (cfg : Cfg) (t0 : Nat) (is : List Input)
+    (hall : ∀ i ∈ is, i.obs = true) : reactions (run cfg (W.init t0) is) = [] := by
+  cases hr : reactions (run cfg (W.init t0) is) with
+  | nil => rfl
+  | cons x xs =>
+    exfalso
+    have halt := alternation cfg t0 is
+    rw [hr] at halt
+    simp only [alternating, Bool.and_eq_true, beq_iff_eq] at halt
+    have hx : x = false := halt.1
+    have hmem : x ∈ reactions (run cfg (W.init t0) is) := by rw [hr]; exact List.mem_cons_self
+    simp only [reactions, List.mem_filterMap] at hmem
+    obtain ⟨e, he, hre⟩ := hmem
+    obtain ⟨pre, post, hsplit⟩ := List.append_of_mem he
+    have hs := stable_before_reaction cfg t0 is pre post e x hsplit hre
+    have hobs := run_obs cfg is (W.init t0)
+    have : e.obs ∈ is.map (·.obs) := by
+      rw [← hobs]; exact List.mem_map_of_mem he
+    obtain ⟨i, hi, hio⟩ := List.mem_map.mp this
+    have := hall i hi
+    rw [hs.1, hx] at hio
+    rw [hio] at this
+    exact Bool.noConfusion this
+
+/-- Errors alone can never trigger the `unhealthy` reaction: a wired run in which every fetch falls in
+    an error class (whatever the thresholds, whatever else happens in between) produces no reaction. -/
+theorem failing_fetches_never_react (cfg : Cfg) (t0 : Nat) (thr : Thr) (p0 : Option Pol) (ops : List Op)
+    (herr : ∀ lat h, Op.obs lat h ∈ ops → (classify h).isError = true) :
+    reactions (obsEvents (sysRun cfg (Sys.init t0 thr p0) ops)) = [] := by
+  rw [obsEvents_sysRun]
+  apply healthy_answers_silent
+  have key : ∀ (ops : List Op) (thr : Thr),
+      (∀ lat h, Op.obs lat h ∈ ops → (classify h).isError = true) →
+      ∀ i ∈ inputsOf thr ops, i.obs = true := by
+    intro ops
+    induction ops with
+    | nil => intro thr _ i hi; simp [inputsOf] at hi
+    | cons op ops ih =>
+      intro thr herr i hi
+      have herr' : ∀ lat h, Op.obs lat h ∈ ops → (classify h).isError = true :=
+        fun lat h hm => herr lat h (List.mem_cons_of_mem _ hm)
+      cases op with
+      | obs lat h =>
+        simp only [inputsOf, List.mem_cons] at hi
+        rcases hi with hi | hi
+        · rw [hi]; exact error_paths_healthy thr h (herr lat h List.mem_cons_self)
+        · exact ih thr herr' i hi
+      | thr t => exact ih t herr' i (by simpa [inputsOf] using hi)
+      | write f => exact ih thr herr' i (by simpa [inputsOf] using hi)
+      | admin b => exact ih thr herr' i (by simpa [inputsOf] using hi)
+      | reload => exact ih thr herr' i (by simpa [inputsOf] using hi)
+      | revert f => exact ih thr herr' i (by simpa [inputsOf] using hi)
+  exact key ops thr herr
+
+/-! Non-vacuity and the boundary: with the shipped thresholds (rate 0, max 5 s) a row `0, 5` is
+    unhealthy, `0, 6` healthy, `1, 6` unhealthy; the same unhealthy row behind a 503 is healthy. -/
+example : (predicate dockerThr (.status 200 (.csv ⟨true, true, true, true⟩ [⟨"lunar", "BACKEND", "0", "5", 0⟩]))).1 = false := by decide
+example : (predicate dockerThr (.status 200 (.csv ⟨true, true, true, true⟩ [⟨"lunar", "BACKEND", "0", "6", 0⟩]))).1 = true := by decide
+example : (predicate dockerThr (.status 200 (.csv ⟨true, true, true, true⟩ [⟨"lunar", "BACKEND", "1", "6", 0⟩]))).1 = false := by decide
+example : (predicate dockerThr (.status 503 (.csv ⟨true, true, true, true⟩ [⟨"lunar", "BACKEND", "1", "6", 0⟩]))).1 = true := by decide
+/-- a bad record AFTER the evaluated row voids the whole table -/
+example : (predicate dockerThr (.status 200 (.csv ⟨true, true, true, true⟩
+    [⟨"lunar", "BACKEND", "1", "6", 0⟩, ⟨"x", "y", "1", "1", 1⟩]))).1 = true := by decide
+/-- `lastsess` beyond 9 223 372 036 s wraps to a negative duration: "unhealthy" -/
+example : (predicate dockerThr (.status 200 (.csv ⟨true, true, true, true⟩ [⟨"lunar", "BACKEND", "0", "9223372037", 0⟩]))).1 = false := by decide
+
+/-! ### (b) the configuration read from the environment -/
+
+/-- Construction succeeds iff all four variables are `strconv.Atoi`-readable; there is no default
+    (the empty string is a syntax error), no lower bound (0 and negative values are accepted). -/
+theorem construct_ok_iff (e : EnvCfg) :
+    (∃ raw, construct e = .ok raw) ↔
+      ∃ i n p c, goAtoi e.interval = .ok i ∧ goAtoi e.n = .ok n ∧ goAtoi e.period = .ok p ∧
+        goAtoi e.cooldown = .ok c := by
+  unfold construct getenvInt
+  cases goAtoi e.interval <;> cases goAtoi e.n <;> cases goAtoi e.period <;> cases goAtoi e.cooldown <;> simp
+
+/-- ... and then N is taken as is, the three durations are seconds turned into (wrapping) nanoseconds. -/
+theorem construct_value (e : EnvCfg) (i n p c : Int)
+    (hi : goAtoi e.interval = .ok i) (hn : goAtoi e.n = .ok n) (hp : goAtoi e.period = .ok p)
+    (hc : goAtoi e.cooldown = .ok c) :
+    construct e = .ok ⟨n, secToNs p, secToNs i, secToNs c⟩ := by
+  simp [construct, getenvInt, hi, hn, hp, hc]
+
+/-- The error of a failed construction is that of the FIRST unreadable variable in the order interval,
+    N, stable period, cool-down, and carries the offending string. -/
+theorem construct_first_error (e : EnvCfg) :
+    (∀ k, goAtoi e.interval = .error k → construct e = .error ⟨k, e.interval⟩) ∧
+    (∀ i k, goAtoi e.interval = .ok i → goAtoi e.n = .error k → construct e = .error ⟨k, e.n⟩) ∧
+    (∀ i n k, goAtoi e.interval = .ok i → goAtoi e.n = .ok n → goAtoi e.period = .error k →
+       construct e = .error ⟨k, e.period⟩) ∧
+    (∀ i n p k, goAtoi e.interval = .ok i → goAtoi e.n = .ok n → goAtoi e.period = .ok p →
+       goAtoi e.cooldown = .error k → construct e = .error ⟨k, e.cooldown⟩) := by
+  refine ⟨?_, ?_, ?_, ?_⟩ <;> intros <;> simp_all [construct, getenvInt]
+
+/-- The initial wait exists exactly for a negative check interval. -/
+theorem initialWait_pos_iff (r : RawCfg) (h : -9223372036854775808 ≤ r.interval) :
+    0 < r.initialWait ↔ r.interval < 0 := by
+  unfold RawCfg.initialWait
+  split <;> omega
+
+/-- The shipped values (proxy/Dockerfile): N = 5, stable 7 s, every 1 s, cool-down 300 s. -/
+example : (construct dockerEnv).toOption = some ⟨5, 7000000000, 1000000000, 300000000000⟩ := by decide
+/-- 0 is accepted everywhere; -/
+example : (construct ⟨"0", "0", "0", "0"⟩).toOption = some ⟨0, 0, 0, 0⟩ := by decide
+/-- negative values too (the watcher then behaves as for 0, except the ≈ 292-year initial wait of a negative interval); -/
+example : (construct ⟨"-1", "-5", "-7", "-300"⟩).toOption.map (fun r => (r.toCfg.interval, r.initialWait))
+    = some (0, 9223372035854775809) := by decide
+/-- an unset variable, a unit suffix or a fraction fail the construction (the engine then panics at boot); -/
+example : errOf (construct ⟨"", "5", "7", "300"⟩) = some ⟨.syntax, ""⟩ := by decide
+example : errOf (construct ⟨"1", "5", "7s", "300"⟩) = some ⟨.syntax, "7s"⟩ := by decide
+example : errOf (construct ⟨"1", "5", "7", "0.5"⟩) = some ⟨.syntax, "0.5"⟩ := by decide
+example : errOf (construct ⟨"1", "5", "7", "9223372036854775808"⟩) = some ⟨.range, "9223372036854775808"⟩ := by decide
+/-- a cool-down of 9 223 372 037 s overflows to a negative duration, i.e. no cool-down at all. -/
+example : (construct ⟨"1", "5", "7", "9223372037"⟩).toOption.map (·.toCfg.cooldown) = some 0 := by decide
+
+/-! ### (c) the property through the wiring; the reactions on the policies accessor (beyond the property) -/
+
+/-- Level 1 holds through the wiring, for every script: the health checks of a wired run satisfy
+    `holds` (alternation, stability, cool-down) and every answer of the predicate is the specified one. -/
+theorem c20_wiring_core (cfg : Cfg) (t0 : Nat) (thr : Thr) (p0 : Option Pol) (ops : List Op) :
+    coreOk cfg thr (sysRun cfg (Sys.init t0 thr p0) ops) = true := by
+  simp only [coreOk, Bool.and_eq_true]
+  refine ⟨?_, predsOk_sysRun cfg ops (Sys.init t0 thr p0)⟩
+  rw [obsEvents_sysRun]
+  exact c20_holds cfg t0 _
+
+/-- Connection theorem of level 2: the judge predicate `wholds` (property C20 on the wired fail-safe) is
+    true of EVERY model run - every configuration the environment can state, every script of stats
+    fetches, threshold changes, reloads, reverts and HAProxy moods.  No excluded class. -/
+theorem c20_wiring_holds (raw : RawCfg) (t0 : Nat) (thr : Thr) (p0 : Option Pol) (ops : List Op) :
+    wholds raw thr (sysRun raw.toCfg (Sys.init t0 thr p0) ops) = true :=
+  c20_wiring_core _ t0 thr p0 ops
+
+/-- Beyond the property (model theorem): every wired run that contains no step of the three classes
+    `Beyond` (reload while diagnosis-free; a revert HAProxy refuses; a reload HAProxy refuses) keeps the
+    policies in force on the reference: diagnosis-free variant of the latest load from an `unhealthy`
+    reaction to the next `healthy` one, the latest load itself otherwise. -/
+theorem policies_follow_reference (cfg : Cfg) (t0 : Nat) (thr : Thr) (p0 : Option Pol) (ops : List Op)
+    (hex : wexcluded p0 (sysRun cfg (Sys.init t0 thr p0) ops) = none) :
+    inForceOk p0 (sysRun cfg (Sys.init t0 thr p0) ops) = true := by
+  cases p0 with
+  | none => exact noacc_run _ ops _ rfl
+  | some p => exact policies_run _ ops _ _ (Acc.boot p) rfl (ainv_boot p) hex
+
+/-- The hypothesis is satisfiable by a non-trivial run: a full unhealthy/healthy cycle with two reloads
+    outside the unhealthy period (N = 2, no period, no cool-down). -/
+example :
+    let U := Op.obs 0 (.status 200 (.csv ⟨true, true, true, true⟩ [⟨"lunar", "BACKEND", "0", "5", 0⟩]))
+    let H := Op.obs 0 (.status 200 (.csv ⟨true, true, true, true⟩ [⟨"lunar", "BACKEND", "0", "6", 0⟩]))
+    let ops := [.write (.good ⟨2, true, false, true⟩), .reload, U, U, H, H, .write (.good ⟨3, false, true, false⟩), .reload]
+    let h := sysRun ⟨2, 0, 0, 0⟩ (Sys.init 0 dockerThr (some ⟨1, true, true, false⟩)) ops
+    wexcluded (some ⟨1, true, true, false⟩) h = none ∧ reactions (obsEvents h) = [false, true] := by
+  decide
+
+/-- Observation beyond C20 (model fact, not a violation): a reload arriving while the fail-safe holds the policies diagnosis-free puts the diagnoses back
+    in force although the link is still unhealthy (the reload itself is not lost: see
+    `reload_survives_unhealthy_period`). -/
+theorem reload_while_free_observation_witness :
+    ∃ ops : List Op,
+      let h := sysRun ⟨2, 0, 0, 0⟩ (Sys.init 0 dockerThr (some ⟨1, true, true, false⟩)) ops
+      policiesOk (Ref.init ⟨1, true, true, false⟩) h = false ∧
+      excluded (Ref.init ⟨1, true, true, false⟩) h = some .reloadWhileFree :=
+  ⟨[.obs 0 (.status 200 (.csv ⟨true, true, true, true⟩ [⟨"lunar", "BACKEND", "0", "5", 0⟩])),
+    .obs 0 (.status 200 (.csv ⟨true, true, true, true⟩ [⟨"lunar", "BACKEND", "0", "5", 0⟩])),
+    .write (.good ⟨2, true, true, false⟩), .reload], by decide⟩
+
+/-- Observation beyond C20 (model fact, not a violation): a revert refused by HAProxy is only logged; the watcher counts the reaction as done and never
+    retries: the diagnoses stay in force for the whole unhealthy period. -/
+theorem refused_revert_observation_witness :
+    ∃ ops : List Op,
+      let h := sysRun ⟨2, 0, 0, 0⟩ (Sys.init 0 dockerThr (some ⟨1, true, false, true⟩)) ops
+      policiesOk (Ref.init ⟨1, true, false, true⟩) h = false ∧
+      excluded (Ref.init ⟨1, true, false, true⟩) h = some .revertRefused :=
+  ⟨[.admin true,
+    .obs 0 (.status 200 (.csv ⟨true, true, true, true⟩ [⟨"lunar", "BACKEND", "0", "5", 0⟩])),
+    .obs 0 (.status 200 (.csv ⟨true, true, true, true⟩ [⟨"lunar", "BACKEND", "0", "5", 0⟩])),
+    .admin false,
+    .obs 0 (.status 200 (.csv ⟨true, true, true, true⟩ [⟨"lunar", "BACKEND", "0", "5", 0⟩]))], by decide⟩
+
+/-- Observation beyond C20 (model fact, not a violation): a reload refused by HAProxy has already overwritten both "last loaded" snapshots; the next
+    reaction installs the (diagnosis-free variant of the) refused policies. -/
+theorem refused_reload_observation_witness :
+    ∃ ops : List Op,
+      let h := sysRun ⟨2, 0, 0, 0⟩ (Sys.init 0 dockerThr (some ⟨1, true, false, false⟩)) ops
+      policiesOk (Ref.init ⟨1, true, false, false⟩) h = false ∧
+      excluded (Ref.init ⟨1, true, false, false⟩) h = some .reloadRefused :=
+  ⟨[.admin true, .write (.good ⟨2, false, true, true⟩), .reload, .admin false,
+    .obs 0 (.status 200 (.csv ⟨true, true, true, true⟩ [⟨"lunar", "BACKEND", "0", "5", 0⟩])),
+    .obs 0 (.status 200 (.csv ⟨true, true, true, true⟩ [⟨"lunar", "BACKEND", "0", "5", 0⟩]))], by decide⟩
+
+/-- What "last loaded" is: after a `ReloadFromFile` of a readable file both snapshots hold THAT file -
+    whether or not HAProxy then accepted it, whatever the mode; an unreadable file changes nothing. -/
+theorem last_loaded_is_last_read (a : Acc) :
+    (∀ p, a.file.content = some p →
+      a.reload.1.loadedFull = some p ∧ a.reload.1.loadedFree = some (strip p)) ∧
+    (a.file.content = none → a.reload = (a, false)) := by
+  constructor
+  · intro p hp
+    simp only [Acc.reload, hp, Acc.update]
+    split <;> exact ⟨rfl, rfl⟩
+  · intro hn; simp [Acc.reload, hn]
+
+/-- A reload arriving during the unhealthy period is not lost: once HAProxy accepts it, the `healthy`
+    reaction (`RevertToLastLoaded`) puts exactly the reloaded policies in force. -/
+theorem reload_survives_unhealthy_period (a : Acc) (p : Pol) (hp : a.file.content = some p)
+    (hadm : (a.adminFail && needsAdmin p) = false) :
+    ((a.reload.1).revert false).1.cur = p := by
+  have h1 : a.reload.1.loadedFull = some p := ((last_loaded_is_last_read a).1 p hp).1
+  have h2 : a.reload.1.adminFail = a.adminFail := by
+    simp only [Acc.reload, hp, Acc.update]; split <;> rfl
+  simp only [Acc.revert, Bool.false_eq_true, if_false, h1, Acc.update, h2, hadm]
+
+/-- The `unhealthy` reaction strips exactly the diagnoses (global and endpoint), nothing else. -/
+theorem strip_spec (p : Pol) : (strip p).k = p.k ∧ (strip p).r = p.r ∧ (strip p).g = false ∧ (strip p).e = false :=
+  ⟨rfl, rfl, rfl, rfl⟩
+
+/-- The policies in force, stated directly: after any script without manual reverts and without a step of
+    the three `Beyond` classes - any interleaving of health checks (through the level-1 watcher), file
+    writes, reloads and HAProxy moods - the policies in force are the diagnosis-free variant of `L` exactly
+    when the watcher's last reaction was `unhealthy`, and `L` itself otherwise (no reaction yet, or the last
+    one was `healthy`), where `L` = the policies of the latest successful (re)load; and "last loaded" is `L`. -/
+theorem in_force_between_reactions (cfg : Cfg) (t0 : Nat) (thr : Thr) (p : Pol) (ops : List Op)
+    (hnr : ∀ f, Op.revert f ∉ ops)
+    (hex : excluded (Ref.init p) (sysRun cfg (Sys.init t0 thr (some p)) ops) = none) :
+    ∃ a, (sysFinal cfg (Sys.init t0 thr (some p)) ops).acc = some a ∧
+      a.cur = (if lastReaction (obsEvents (sysRun cfg (Sys.init t0 thr (some p)) ops)).reverse
+               then (refRun (Ref.init p) (sysRun cfg (Sys.init t0 thr (some p)) ops)).L
+               else strip (refRun (Ref.init p) (sysRun cfg (Sys.init t0 thr (some p)) ops)).L) ∧
+      a.loadedFull = some (refRun (Ref.init p) (sysRun cfg (Sys.init t0 thr (some p)) ops)).L := by
+  obtain ⟨a, ha, hinv⟩ := policies_run_final cfg ops (Sys.init t0 thr (some p)) (Ref.init p) (Acc.boot p)
+    rfl (ainv_boot p) hex
+  refine ⟨a, ha, ?_, hinv.full⟩
+  have hdf := refRun_df cfg ops hnr (Sys.init t0 thr (some p)) (Ref.init p)
+  rw [hinv.cur, Ref.expect, hdf, lastReaction_reverse]
+  simp only [Ref.init, Bool.not_false]
+  cases lastReactFold true (obsEvents (sysRun cfg (Sys.init t0 thr (some p)) ops)) <;> simp
+
+/-- Non-vacuity: after `unhealthy` the stripped version 2 is in force, after `healthy` version 2 itself. -/
+example :
+    let U := Op.obs 0 (.status 200 (.csv ⟨true, true, true, true⟩ [⟨"lunar", "BACKEND", "0", "5", 0⟩]))
+    let H := Op.obs 0 (.status 200 (.csv ⟨true, true, true, true⟩ [⟨"lunar", "BACKEND", "0", "6", 0⟩]))
+    let s0 := Sys.init 0 dockerThr (some ⟨1, true, true, false⟩)
+    ((sysFinal ⟨2, 0, 0, 0⟩ s0 [.write (.good ⟨2, true, false, true⟩), .reload, U, U]).acc.map (·.cur),
+     (sysFinal ⟨2, 0, 0, 0⟩ s0 [.write (.good ⟨2, true, false, true⟩), .reload, U, U, H, H]).acc.map (·.cur))
+    = (some ⟨2, false, false, true⟩, some ⟨2, true, false, true⟩) := by
+  decide
+
+/-! ### The shipped configuration (regenerated from `proxy/Dockerfile` by the extractor) -/
+
+open LunarVerif.Generated in
+/-- Obligation: the `ENV DIAGNOSIS_FAILSAFE_*` values extracted from the tree under test are the ones the
+    level-2 model and generators use (`dockerEnv`, `dockerThr`), all six were found, they construct, and the
+    constructed configuration is a sane one (N ≥ 2, positive interval / stable period / cool-down, no
+    overflow, no initial wait). -/
+theorem shipped_defaults_ok :
+    Const.notFound.all (fun n => !n.startsWith "dfs") = true ∧
+    (goAtoi dockerEnv.interval).toOption = some Const.dfsMinSecBetweenCalls ∧
+    (goAtoi dockerEnv.n).toOption = some Const.dfsConsecutiveN ∧
+    (goAtoi dockerEnv.period).toOption = some Const.dfsMinStableSec ∧
+    (goAtoi dockerEnv.cooldown).toOption = some Const.dfsCooldownSec ∧
+    (goAtoi dockerThr.rate).toOption = some Const.dfsHealthySessionRate ∧
+    (goAtoi dockerThr.max).toOption = some Const.dfsHealthyMaxLastSessionSec ∧
+    (construct dockerEnv).toOption =
+      some ⟨Const.dfsConsecutiveN, Const.dfsMinStableSec * 1000000000,
+            Const.dfsMinSecBetweenCalls * 1000000000, Const.dfsCooldownSec * 1000000000⟩ ∧
+    2 ≤ Const.dfsConsecutiveN ∧ 0 < Const.dfsMinSecBetweenCalls ∧ 0 < Const.dfsMinStableSec ∧
+    0 < Const.dfsCooldownSec ∧ Const.dfsCooldownSec ≤ 9223372036 := by
+  decide
+
+open LunarVerif.Generated in
+/-- The level-1 configuration the shipped defaults amount to. -/
+def shippedCfg : Cfg :=
+  ⟨Const.dfsConsecutiveN, (Const.dfsMinStableSec * 1000000000).toNat,
+   (Const.dfsMinSecBetweenCalls * 1000000000).toNat, (Const.dfsCooldownSec * 1000000000).toNat⟩
+
+/-- Level 1 at the shipped configuration. -/
+theorem c20_holds_shipped (t0 : Nat) (is : List Input) :
+    holds shippedCfg (run shippedCfg (W.init t0) is) = true := c20_holds shippedCfg t0 is
+
+/-- Level 2 at the shipped configuration: the environment of the Dockerfile constructs, to exactly
+    `shippedCfg`, and every wired run under it (shipped thresholds, any script) satisfies the property. -/
+theorem c20_wiring_holds_shipped :
+    ∃ raw, (construct dockerEnv).toOption = some raw ∧ raw.toCfg = shippedCfg ∧ raw.initialWait = 0 ∧
+      ∀ (t0 : Nat) (p0 : Option Pol) (ops : List Op),
+        wholds raw dockerThr (sysRun raw.toCfg (Sys.init t0 dockerThr p0) ops) = true :=
+  ⟨⟨5, 7000000000, 1000000000, 300000000000⟩, by decide, by rfl, by decide,
+   fun t0 p0 ops => c20_wiring_holds _ t0 dockerThr p0 ops⟩
 
 end LunarVerif.C20
